@@ -210,113 +210,50 @@ def differences(m_vanilla, m_nv, vanilla_instructions):
 import sys
 from copy import deepcopy
 
+from netqasm.lang.encoding import RegisterName
+from netqasm.lang.operand import Register
 from netqasm.sdk.build_types import NVHardwareConfig
 from netqasm.sdk.connection import DebugConnection
-from netqasm.sdk.epr_socket import EPRSocket
-from netqasm.sdk.qubit import FutureQubit, Qubit
+from netqasm.sdk.qubit import Qubit
 from netqasm.sdk.transpile import NVSubroutineTranspiler
 
-failures = []
+Q2 = Register(RegisterName.Q, 2)
 
+# One application, two subroutines. Registers keep their values from one subroutine of an
+# application to the next (netqasm.backend.executor.Executor keeps them per app ID).
+with DebugConnection("Alice", hardware_config=NVHardwareConfig(4)) as conn:
+    electron, carbon1, carbon2 = Qubit(conn), Qubit(conn), Qubit(conn)  # virtual IDs 0, 1, 2
+    with conn.loop(2, loop_register=Q2) as i:  # explicit loop register: Q2 counts 0, 1 and ends as 2
+        carbon1.H()
+    first = conn.compile()
 
-def report(title, vanilla_sub, expected, happened, bad):
-    print(f"--- {title}")
-    print(f"    expected: {expected}")
-    print(f"    happened: {happened}")
-    if bad:
-        failures.append(title)
+    counts = conn.new_array(3, init_values=[10, 20, 30])
+    carbon1.cnot(carbon2)  # a gate between two carbons
+    counts.get_future_index(i).add(5)  # load R @counts[Q2] / add / store R @counts[Q2]
+    second = conn.compile()
 
+print("second vanilla subroutine:")
+print("\n".join(f"   {k:3d}  {ins}" for k, ins in enumerate(second.instructions)))
 
-def run_both(vanilla_sub):
-    """Run the vanilla subroutine and its NV transpilation from the same (empty) state."""
-    nv_sub = NVSubroutineTranspiler(deepcopy(vanilla_sub)).transpile()
-    m_vanilla = Machine(nv_hardware_rules=False).run(list(vanilla_sub.instructions))
-    m_nv = Machine(nv_hardware_rules=True).run(list(nv_sub.instructions))
-    return nv_sub, differences(m_vanilla, m_nv, vanilla_sub.instructions)
+nv_first = NVSubroutineTranspiler(deepcopy(first)).transpile()
+nv_second = NVSubroutineTranspiler(deepcopy(second)).transpile()
+scratch = [str(ins) for ins in nv_second.instructions if str(ins).startswith("set Q") and str(ins).endswith(" 0")
+           and str(ins) not in [str(j) for j in second.instructions]]
+print(f"\nscratch electron register chosen by the transpiler for the carbon-carbon cnot: {scratch[:1]}")
 
+m_vanilla = Machine(nv_hardware_rules=False)
+m_vanilla.run(list(first.instructions)).run(list(second.instructions))
+m_nv = Machine(nv_hardware_rules=True)
+m_nv.run(list(nv_first.instructions)).run(list(nv_second.instructions))
 
-# Case A: the qubit registers of a gate are written by `load` (a FutureQubit: its virtual ID
-# is an array entry). Earlier in the same subroutine Q0 / Q1 were `set` to other IDs.
-with DebugConnection("Alice", hardware_config=NVHardwareConfig(3)) as conn:
-    electron = Qubit(conn)  # virtual ID 0
-    carbon = Qubit(conn)  # virtual ID 1
-    electron.H()
-    electron.cnot(carbon)  # set Q0 0 / set Q1 1 / cnot Q0 Q1     (electron -> carbon)
-    ids = conn.new_array(2, init_values=[1, 0])
-    f_carbon = FutureQubit(conn, ids.get_future_index(0))  # holds 1 when the gate runs
-    f_electron = FutureQubit(conn, ids.get_future_index(1))  # holds 0 when the gate runs
-    f_carbon.H()
-    f_carbon.cnot(f_electron)  # load Q0 @ids[0] / load Q1 @ids[1] / cnot Q0 Q1   (carbon -> electron)
-    vanilla_a = conn.compile()
-
-title = "A: cnot whose registers were loaded (carbon -> electron) after a cnot with set registers (electron -> carbon)"
-expected = "the carbon->electron circuit (H on the electron, electron-controlled rotation of the carbon, H)"
-try:
-    nv_a, diffs = run_both(vanilla_a)
-    report(title, vanilla_a, expected, f"NV program ran, differences: {diffs or 'none'}", bool(diffs))
-except RunError as exc:
-    report(title, vanilla_a, expected, f"the NV program cannot run on NV: {exc}", True)
-except (ValueError, NotImplementedError, RuntimeError) as exc:
-    report(title, vanilla_a, expected, f"refused at transpile time: {exc!r}", False)
-
-# Case B: the request form the SDK offers for this (an EPR context): the EPR qubit is a
-# FutureQubit, the gate partner a memory qubit.
-DebugConnection.node_ids = {"Alice": 0, "Bob": 1}
-epr_socket = EPRSocket("Bob")
-with DebugConnection("Alice", hardware_config=NVHardwareConfig(4), epr_sockets=[epr_socket]) as conn:
-    m1 = Qubit(conn)
-    m2 = Qubit(conn)
-    m1.H()
-    with epr_socket.create_context(number=2, sequential=True) as (q, pair):
-        m2.cnot(q)  # set Q0 <m2> / load Q1 @ids[pair] / cnot Q0 Q1 ; the loaded ID is 0 (the electron)
-        q.measure()
-    vanilla_b = conn.compile()
-
-title = "B: EPR context (sequential), memory_qubit.cnot(epr_qubit); the EPR qubit's register is loaded and holds 0"
-gate_lines = [str(i) for i in vanilla_b.instructions if i.mnemonic in ("cnot", "load") and "Q" in str(i)]
-try:
-    nv_b = NVSubroutineTranspiler(deepcopy(vanilla_b)).transpile()
-    # Which circuit was chosen for that cnot? A carbon-carbon circuit starts by pointing a
-    # scratch register at the electron and swapping; with the electron as the target it
-    # would act on qubit 0 twice.
-    text = [str(i) for i in nv_b.instructions]
-    start = max(k for k, t in enumerate(text) if t.startswith("load Q1"))
-    chosen = text[start + 1 : start + 4]
-    uses_scratch = any(t.startswith("set Q2 0") for t in chosen)
-    report(
-        title, vanilla_b, expected,
-        f"after 'load Q1 ...' the transpiler emitted {chosen}: "
-        + ("the carbon-carbon circuit (scratch register Q2 := electron); at run time Q1 holds 0 as well, "
-           "so 'crot_x Q2 Q1' names the electron twice" if uses_scratch else "ok"),
-        uses_scratch,
-    )
-except AssertionError as exc:
-    report(title, vanilla_b, expected, f"the transpiler crashed: AssertionError({exc})", True)
-except (ValueError, NotImplementedError, RuntimeError) as exc:
-    report(title, vanilla_b, expected, f"refused at transpile time: {exc!r}", False)
-
-# Case C: the same gate when no `set` of that register precedes it in the text at all.
-with DebugConnection("Alice", hardware_config=NVHardwareConfig(3)) as conn:
-    Qubit(conn)  # virtual ID 0   (set Q0 0 / qalloc Q0 / init Q0)
-    Qubit(conn)  # virtual ID 1   (set Q0 1 / qalloc Q0 / init Q0)
-    ids = conn.new_array(2, init_values=[0, 1])
-    a = FutureQubit(conn, ids.get_future_index(0))
-    b = FutureQubit(conn, ids.get_future_index(1))
-    a.H()
-    a.cphase(b)  # load Q0 @ids[0] / load Q1 @ids[1] / cphase Q0 Q1
-    vanilla_c = conn.compile()
-title = "C: cphase between two FutureQubits (IDs 0 and 1), no 'set' of Q1 anywhere in the subroutine"
-try:
-    nv_c, diffs = run_both(vanilla_c)
-    report(title, vanilla_c, "electron-carbon cphase circuit", f"differences: {diffs or 'none'}", bool(diffs))
-except AssertionError as exc:
-    report(title, vanilla_c, "electron-carbon cphase circuit", f"the transpiler crashed: AssertionError({exc})", True)
-except RunError as exc:
-    report(title, vanilla_c, "electron-carbon cphase circuit", f"the NV program cannot run on NV: {exc}", True)
-except (ValueError, NotImplementedError, RuntimeError) as exc:
-    report(title, vanilla_c, "electron-carbon cphase circuit", f"refused at transpile time: {exc!r}", False)
-
-if failures:
-    print(f"\nFAIL: {len(failures)} case(s) violate C08 (decomposition must reflect the qubit the register holds)")
+# (registers that neither vanilla subroutine mentions are not compared)
+diffs = differences(m_vanilla, m_nv, list(first.instructions) + list(second.instructions))
+print(f"\nexpected: same classical memory and quantum state; array @0 = {m_vanilla.arrays[0]}, Q2 = {m_vanilla.regs[Q2]}")
+print(f"happened: array @0 = {m_nv.arrays[0]}, Q2 = {m_nv.regs[Q2]}")
+for d in diffs:
+    print("   ", d)
+if diffs:
+    print("\nFAIL: the scratch register of the carbon-carbon expansion overwrote a register the subroutine "
+          "uses (as an array index)")
     sys.exit(1)
 print("\nOK")
